@@ -5,6 +5,11 @@ import common, zoo as zoolib, filelevel, workloads, shapes
 from common import Pair, proof_stage, rebuild_tools, build_pqh, build_zoo, Lock, TRUSTED_BASE
 
 MODULE = "PQ.Props.C05"
+# the generator's level arithmetic (cmd/parquetgen/fields: MaxDef, MaxRep, MaxRepForDef, DefIndex, NilField, IsRep),
+# mirrored in PQ/Model/GenLevels.lean and tied exhaustively on all chains up to length 7
+GEN_MODULES = ["PQ.Lemmas.GenLevels"]
+GEN_THEOREMS = ["PQ.GenLevels." + t for t in ("gMaxDef_eq", "gMaxRep_eq", "gIsRep_eq", "gMaxRepForDef_spec", "gMaxRepForDef_zero", "gMaxRepForDef_le",
+                                               "gMaxRepForDef_beyond", "gDefIndex_spec", "gNilField_spec")]
 THEOREMS = ["PQ.C05.model_valid_for_every_shape", "PQ.C05.striping_lossless_for_every_shape", "PQ.C02.file_valid", "PQ.schema_valid", "PQ.parseFile_runWriter"]
 
 
@@ -113,7 +118,7 @@ def run(chk):
         cov["steps"]["zoo"] = build_zoo(chk.log)
         build_pqh(chk.log)
         status, shards = shapes.build(items, chk.log)
-        pr = proof_stage(chk, MODULE, THEOREMS)
+        pr = proof_stage(chk, MODULE, THEOREMS + GEN_THEOREMS, GEN_MODULES, audit_imports=GEN_MODULES)
     results = {}
     with ThreadPoolExecutor(max_workers=16) as ex:
         for r in ex.map(lambda sh: evaluate(chk, sh, sh[1], names, thorough), shards):
@@ -122,12 +127,21 @@ def run(chk):
     for sid, st in status.items():
         if st != "ok":
             results[sid] = (st.split(":")[0], st, 0)
+    # exact tie of the generator's level arithmetic: every chain of repetition types up to length 7
+    import itertools
+    gl_ops = ["gen-levels -"] + ["gen-levels " + "".join(c) for n in range(1, 8 if thorough else 7) for c in itertools.product("rom", repeat=n)]
+    gpair = Pair(chk.log)
+    gl_impl = common.chunked_parallel(gpair.impl, gl_ops, workers=4, chunk=400)
+    gl_model = common.chunked_parallel(gpair.model, gl_ops, workers=4, chunk=400)
+    gl_bad = [(o, a, b) for o, a, b in zip(gl_ops, gl_impl, gl_model) if a != b]
     known = [k for k in common.load_known() if k.get("property") == "C05" and k.get("status") == "known"]
     kshape = {}
     for k in known:
         for n in k["key"]["shapes"]:
             kshape[(n, k["key"]["kind"])] = k
     prop_fail, tie_breaks = [], []
+    for o, a, b in gl_bad[:20]:
+        tie_breaks.append({"what": "generator level arithmetic (fields.Field.MaxDef/MaxRep/MaxRepForDef/DefIndex/NilField/IsRep)", "op": o, "impl": a[:200], "model": b[:200]})
     kinds = {}
     ncases = 0
     nontrivial = 0
@@ -152,6 +166,7 @@ def run(chk):
     cov.update({
         "obligations": pr["obligations"], "discharged": pr["discharged"], "axioms": pr["axioms"],
         "checker_cmd": "cd lean && lake build %s" % MODULE, "trusted_base": TRUSTED_BASE, "forbidden_constructs": pr["forbidden_constructs"],
+        "level_arithmetic_chains": len(gl_ops), "level_arithmetic_disagreements": len(gl_bad),
         "programs": len(items), "disagreements_checked": len(items) - kinds.get("ok", 0),
         "evaluations": ncases, "distinct_nontrivial": nontrivial, "exhaustive": bool(thorough),
         "rule": "struct shapes of the property's grammar (forest of required/optional/repeated x leaf/group nodes, every sibling position, depth <= 3, leaf types rotated through the 8 primitives): ALL shapes with <= %s; for each: parquetgen run twice (determinism), compiled, and the generated writer/reader driven on structurally enumerated records at two page sizes: writer bytes = model, file validates (PQ.parseFile), entries = reference striping, read-back = input; non-trivial = distinct shape passing everything" % ("4 nodes (1209 shapes), all 4-node chains of three nested groups, every 12th 5-node shape and curated larger shapes" if thorough else "3 nodes (156), every 9th 4-node shape, a fixed sample of deeper/5-node shapes and curated larger shapes (three nested repeated groups, Person, Document)"),
